@@ -102,6 +102,10 @@ def w_svd(ctx, rng, idx):
     index = int(rng.integers(1, d))
     u = clone(t)
     call('TT.svd', lambda: u.svd(index, overwrite=True), prop=P)
+    # ... and the train the overwriting call leaves behind is a train like any other: split it again, in place and not
+    i2 = int(rng.integers(1, d))
+    call('TT.svd', lambda: u.svd(i2, overwrite=True), prop=P, tags=['after_overwriting_call'])
+    call('TT.svd', lambda: u.svd(int(rng.integers(1, d)), threshold=1e-10), prop=P, tags=['after_overwriting_call'])
     if idx < 3:
         ctx.sample({'workload': 'svd', 'row_dims': t.row_dims, 'ranks': t.ranks, 'kind': kind, 'indices': list(range(1, d))})
 
@@ -117,6 +121,8 @@ def w_pinv(ctx, rng, idx):
     index = int(rng.integers(1, d))
     u = clone(t)
     call('TT.pinv', lambda: u.pinv(index, threshold=1e-10, overwrite=True), prop=P)
+    i2 = int(rng.integers(1, d))
+    call('TT.pinv', lambda: u.pinv(i2, threshold=1e-10, overwrite=True), prop=P, tags=['after_overwriting_call'])
 
 
 def w_flags(ctx, rng, idx):
